@@ -60,40 +60,156 @@ def _opaque(t):
     return isinstance(t, tuple) and bool(t) and t[0] in ("acc", "carried", "after", "unknown", "mutated")
 
 
+def scalar_constants(pkg, cls):
+    """(module-level, class-level) scalar constants a method of `cls` may read: {name: ast.Constant} for names bound exactly once
+    at module level of the class's file to a str / number literal, and for class attributes (MRO) bound to such a literal that no
+    method stores through self / cls (and no setattr is used)."""
+    cache = pkg.__dict__.setdefault("_scalar_consts", {})
+    if cls not in cache:
+        ci = pkg.cls(cls)
+        mod = pkg.modules.get(ci.file)
+        count, mc = {}, {}
+        for n in ast.walk(mod) if mod is not None else ():
+            if isinstance(n, ast.Name) and isinstance(n.ctx, (ast.Store, ast.Del)):
+                count[n.id] = count.get(n.id, 0) + 1
+            elif isinstance(n, (ast.Global, ast.Nonlocal)):
+                for nm in n.names:
+                    count[nm] = count.get(nm, 0) + 2
+            elif isinstance(n, ast.arg):
+                count[n.arg] = count.get(n.arg, 0) + 2
+        for st in mod.body if mod is not None else ():
+            if isinstance(st, ast.Assign) and len(st.targets) == 1 and isinstance(st.targets[0], ast.Name) and count.get(st.targets[0].id) == 1 \
+                    and isinstance(st.value, ast.Constant) and isinstance(st.value.value, (str, int, float)) and not isinstance(st.value.value, bool):
+                mc[st.targets[0].id] = st.value
+        mro = [c for c in pkg.mro(cls) if c in pkg.classes]
+        stored = set()
+        for c in mro:
+            for fn in pkg.classes[c].methods.values():
+                for n in ast.walk(fn):
+                    if isinstance(n, ast.Attribute) and isinstance(n.ctx, (ast.Store, ast.Del)):
+                        stored.add(n.attr)
+                    elif isinstance(n, ast.Call) and isinstance(n.func, ast.Name) and n.func.id in ("setattr", "delattr"):
+                        stored.add("*")
+        cc = {}
+        for c in reversed(mro):
+            for nm, node in pkg.classes[c].attrs.items():
+                if isinstance(node, ast.Constant) and isinstance(node.value, (str, int, float)) and not isinstance(node.value, bool) and nm not in stored \
+                        and "*" not in stored and not any(nm in pkg.classes[k].methods for k in mro):
+                    cc[nm] = node
+                else:
+                    cc.pop(nm, None)
+        cache[cls] = (mc, cc, set(mro))
+    return cache[cls]
+
+
+def inline_constants(func, pkg, cls):
+    """`func` (modified in place) with the reads of scalar constants hoisted to module / class level (`_ZERO = "0.0"`, `self._ZERO`,
+    `TemplateLoader._ZERO`) replaced by the literal: a named constant is the value it names"""
+    mc, cc, mro = scalar_constants(pkg, cls)
+    if not mc and not cc:
+        return func
+    local = {n.id for n in ast.walk(func) if isinstance(n, ast.Name) and isinstance(n.ctx, (ast.Store, ast.Del))} | {a.arg for a in ast.walk(func) if isinstance(a, ast.arg)}
+
+    class Tr(ast.NodeTransformer):
+        def visit_Name(self, n):
+            if isinstance(n.ctx, ast.Load) and n.id in mc and n.id not in local:
+                return ast.copy_location(ast.Constant(value=mc[n.id].value), n)
+            return n
+
+        def visit_Attribute(self, n):
+            if isinstance(n.ctx, ast.Load) and isinstance(n.value, ast.Name) and n.attr in cc and (n.value.id in ("self", "cls") or n.value.id in mro) \
+                    and (n.value.id not in local or n.value.id in ("self", "cls")):
+                return ast.copy_location(ast.Constant(value=cc[n.attr].value), n)
+            return self.generic_visit(n)
+    Tr().visit(func)
+    return func
+
+
+def record_fields(pkg, name):
+    """constructor field order of a plain record class of the package: a `typing.NamedTuple` / `@dataclass` class (its annotated
+    names), or a module-level `Name = namedtuple("Name", [..] | "a b c")`; None for anything else"""
+    short = name.split(".")[-1]
+    ci = pkg.classes.get(name) or pkg.classes.get(short) or next((c for k, c in pkg.classes.items() if k.endswith("." + short)), None)
+    if ci is not None:
+        is_nt = any(b.split(".")[-1] == "NamedTuple" for b in ci.bases)
+        is_dc = any(ast.unparse(d).split("(")[0].split(".")[-1] == "dataclass" for d in ci.node.decorator_list)
+        if not (is_nt or is_dc) or (is_dc and ci.bases) or any(k in ci.methods for k in ("__init__", "__new__", "__post_init__", "__getattr__", "__getattribute__")):
+            return None
+        fields = []
+        for st in ci.node.body:
+            if isinstance(st, ast.AnnAssign) and isinstance(st.target, ast.Name):
+                if "ClassVar" in ast.unparse(st.annotation) or (isinstance(st.value, ast.Call) and "field" in ast.unparse(st.value.func)):
+                    return None
+                fields.append(st.target.id)
+        if any(f in ci.methods for f in fields):
+            return None
+        return fields or None
+    for mod in pkg.modules.values():
+        for st in mod.body:
+            if isinstance(st, ast.Assign) and len(st.targets) == 1 and isinstance(st.targets[0], ast.Name) and st.targets[0].id == short \
+                    and isinstance(st.value, ast.Call) and ast.unparse(st.value.func).split(".")[-1] == "namedtuple" and len(st.value.args) == 2 and not st.value.keywords:
+                spec = st.value.args[1]
+                if isinstance(spec, ast.Constant) and isinstance(spec.value, str):
+                    return spec.value.replace(",", " ").split() or None
+                if isinstance(spec, (ast.List, ast.Tuple)) and all(isinstance(e, ast.Constant) and isinstance(e.value, str) for e in spec.elts):
+                    return [e.value for e in spec.elts] or None
+    return None
+
+
+def pure_helper_resolver(pkg, cls):
+    """name -> FunctionDef of a helper method of `cls` that may be read as the value it returns (valueflow `resolver`): any method
+    except the anchors, provided it leaves its arguments alone (an in-place edit of a list handed in would be lost in the value view)"""
+    import copy as _copy
+    folded = {}
+
+    def resolver(name, _pkg=pkg):
+        _, f = _pkg.resolve(cls, name)
+        if f is None or name in _ANCHORS:
+            return None
+        if name not in folded:
+            folded[name] = inline_constants(_copy.deepcopy(f), _pkg, cls)
+        f = folded[name]
+        ps = {a.arg for a in f.args.args + f.args.kwonlyargs}
+        for n in ast.walk(f):
+            if isinstance(n, ast.Call) and isinstance(n.func, ast.Attribute) and n.func.attr in _MUTATORS:
+                b = n.func.value
+                while isinstance(b, (ast.Attribute, ast.Subscript)):
+                    b = b.value
+                if isinstance(b, ast.Name) and b.id in ps:
+                    return None
+            if isinstance(n, (ast.Assign, ast.AugAssign, ast.AnnAssign, ast.Delete)):
+                for t in (n.targets if isinstance(n, (ast.Assign, ast.Delete)) else [n.target]):
+                    b = t
+                    while isinstance(b, (ast.Attribute, ast.Subscript)):
+                        b = b.value
+                    if b is not t and isinstance(b, ast.Name) and b.id in ps:
+                        return None
+        return f
+    return resolver
+
+
 class OdeModel:
     def __init__(self, tree):
         self.tree = tree
         pkg = package(tree)
         self.func = pkg.method("TemplateLoader", "_prepare_ode_content")
         # helper procedures of TemplateLoader that fill the lists they are handed are expanded in place
+        import copy as _copy
+        _folded = {}
+
+        def _fold(f):
+            # (helpers are read with the named scalar constants of the module / class replaced by their literals, like the method itself)
+            if f is not None and id(f) not in _folded:
+                _folded[id(f)] = inline_constants(_copy.deepcopy(f), pkg, "TemplateLoader")
+            return _folded[id(f)] if f is not None else None
+
         def _resolver(name, _pkg=pkg):
             _, f = _pkg.resolve("TemplateLoader", name)
-            return f
-        # ... and small loop-free helper FUNCTIONS (`self._without(lst, x)` returning a value) are read as the value they return,
-        # provided they leave their arguments alone (an in-place edit of a list handed in would be lost in the value view)
-        def _pure_resolver(name, _pkg=pkg):
-            _, f = _pkg.resolve("TemplateLoader", name)
-            if f is None or name in _ANCHORS:
-                return None
-            ps = {a.arg for a in f.args.args + f.args.kwonlyargs}
-            for n in ast.walk(f):
-                if isinstance(n, ast.Call) and isinstance(n.func, ast.Attribute) and n.func.attr in _MUTATORS:
-                    b = n.func.value
-                    while isinstance(b, (ast.Attribute, ast.Subscript)):
-                        b = b.value
-                    if isinstance(b, ast.Name) and b.id in ps:
-                        return None
-                if isinstance(n, (ast.Assign, ast.AugAssign, ast.AnnAssign, ast.Delete)):
-                    for t in (n.targets if isinstance(n, (ast.Assign, ast.Delete)) else [n.target]):
-                        b = t
-                        while isinstance(b, (ast.Attribute, ast.Subscript)):
-                            b = b.value
-                        if b is not t and isinstance(b, ast.Name) and b.id in ps:
-                            return None
-            return f
+            return _fold(f)
+        # ... and small loop-free helper FUNCTIONS (`self._without(lst, x)` returning a value) are read as the value they return
+        _pure_resolver = pure_helper_resolver(pkg, "TemplateLoader")
         # ... and a helper METHOD with loops whose call is a whole statement (`jac = self._build(n, entries)`) is replaced by its
         # statements (parameters renamed to the arguments, locals made unique): an extracted block is still this code
-        import copy as _copy
         from .normalize import inline_stmt_calls
 
         def _stmt_resolver(call, _pkg=pkg):
@@ -101,12 +217,30 @@ class OdeModel:
             if isinstance(f_, ast.Attribute) and isinstance(f_.value, ast.Name) and f_.value.id in ("self", "cls") and f_.attr not in _ANCHORS:
                 _, callee = _pkg.resolve("TemplateLoader", f_.attr)
                 if callee is not None and callee is not self.func:
-                    return callee, f_.value
+                    return _fold(callee), f_.value
             return None
-        func = inline_stmt_calls(_copy.deepcopy(self.func), _stmt_resolver)
+        func = inline_constants(_copy.deepcopy(self.func), pkg, "TemplateLoader")
+        # a generator method that hands records to a consuming loop (`for rec in self._iter_terms(..): rhs[rec.row] += ..`) is put
+        # back in place, and a namedtuple / dataclass that only carries the values across is replaced by its fields
+        from .normalize import inline_generator_loops, scalarise_records
+        func = inline_generator_loops(func, _stmt_resolver)
+        func = scalarise_records(func, lambda name, _pkg=pkg: record_fields(_pkg, name))
+        func = inline_stmt_calls(func, _stmt_resolver)
+        # `rhs, jac = self._stage(..)` with the stage put back leaves `rhs, jac = <the stage's locals>`: the same tables under one name
+        from .normalize import coalesce_copies
+        func = coalesce_copies(func)
+        # a table kept as a list of rows and flattened once (`rows[r][c] += t` .. `list(chain.from_iterable(rows))`) is the flat table
+        from .normalize import flatten_row_tables, flatten_keyed_tables
+        func = flatten_row_tables(func)
+        # ... and a dict keyed by (row, column), read out with a default into the flat list, is that flat table as well
+        func = flatten_keyed_tables(func)
+        # one loop over a concatenation (`for sign, i in chain(zip(repeat(" - "), R), zip(repeat(" + "), P))`) is the loops it abbreviates
+        from .normalize import split_concat_loops
+        func = split_concat_loops(func)
         self.flow = Flow(func, FILE, proc_resolver=_resolver, resolver=_pure_resolver)
         fl = self.flow
         self._expand_built_lists(fl)
+        self._index_slice_loops(fl)
         params = [a.arg for a in self.func.args.args if a.arg != "self"]
         if not params:
             raise AnalysisError("_prepare_ode_content lost its parameters", (FILE, self.func.lineno))
@@ -134,7 +268,16 @@ class OdeModel:
         """A list built by an accumulation loop with intermediate statements and read afterwards (`dterms = []; for r in ..: c =
         copy; c.remove(..); dterms.append((r, term))` ... `for r, t in dterms:`) is read as the comprehension it is equal to
         (valueflow.summarise_appends), in every index, value, guard and loop domain of this function's facts."""
-        from .valueflow import summarise_appends
+        from .valueflow import summarise_appends, summarise_memos, expand_memos
+        # ... and a read of a memo table (`d = {}; for r in ..: if r not in d: d[r] = g(r)` ... `d[r2]`) as the value stored there
+        memos = summarise_memos(fl)
+        if memos:
+            for f in fl.facts:
+                f.index = expand_memos(f.index, memos) if f.index is not None else None
+                f.value = expand_memos(f.value, memos) if f.value is not None else None
+                f.guards = tuple((expand_memos(c, memos), p_) for c, p_ in f.guards)
+            for nm, lst in fl.assigns.items():
+                lst[:] = [(expand_memos(v, memos), loops, guards, line, seq) for v, loops, guards, line, seq in lst]
         for _ in range(3):
             sm = summarise_appends(fl)
             if not sm:
@@ -159,6 +302,41 @@ class OdeModel:
                 lst[:] = [(ex(v), loops, tuple((ex(c), p_) for c, p_ in guards), line, seq) for v, loops, guards, line, seq in lst]
             if not changed:
                 return
+
+    @staticmethod
+    def _index_slice_loops(fl):
+        """A loop that walks a SLICE of a table and stores back into that table (`for i, e in enumerate(T[lo:hi]): T[lo + i] = g(e)`)
+        is the index loop `for i in range(hi - lo): T[lo + i] = g(T[lo + i])`: position and element are rewritten to that form in every
+        fact of the loop, so that the store rules see the slot they know.  Loops that only read the table are left as they are."""
+        stored = {f.target for f in fl.facts if f.kind in ("store", "augstore") and isinstance(f.target, str)}
+        for lp in list(fl.all_loops.values()):
+            it = simp(lp.iter)
+            if it[0] == "call" and it[1] == ("global", "enumerate") and len(it[2]) == 1 and not it[3]:
+                it = it[2][0]
+            if not (it[0] == "sub" and it[1][0] == "acc" and it[1][1] in stored and it[2][0] == "slice" and it[2][3] == ("const", None)):
+                continue
+            if not any(f.target == it[1][1] and f.kind in ("store", "augstore") and lp in f.loops for f in fl.facts):
+                continue
+            lo = it[2][1] if it[2][1] != ("const", None) else ("const", 0)
+            hi = it[2][2]
+            if hi == ("const", None):
+                continue
+            d = poly(("binop", "Sub", hi, lo))
+            if len(d) == 1 and list(d.values()) == [1] and len(next(iter(d))) == 1:
+                n = next(iter(d))[0]
+            elif not d or (len(d) == 1 and () in d):
+                n = ("const", d.get((), 0))
+            else:
+                n = ("binop", "Sub", hi, lo)
+            pos = ("elem", ("call", ("global", "range"), (n,), ()), lp.id)
+            slot = ("sub", it[1], pos if lo == ("const", 0) else ("binop", "Add", lo, pos))
+            m = {("idx", it, lp.id): pos, ("elem", it, lp.id): slot}
+            ex = lambda v: simp(subst(simp(v), m)) if v is not None else None
+            for f in fl.facts:
+                if lp in f.loops:
+                    f.index, f.value = ex(f.index), ex(f.value)
+                    f.guards = tuple((ex(c), p_) for c, p_ in f.guards)
+            lp.iter = ("call", ("global", "range"), (n,), ())
 
     def _array_names(self):
         """The locals playing the roles of rhs[] and jacrhs[] (robust to renaming)."""
@@ -221,6 +399,13 @@ class OdeModel:
         v = simp(v)
         if v == ("call", ("global", "len"), (("acc", self.RHSNAME),), ()):
             return True         # rhs is created as ['0.0'] * n_eqns (C01.R1) and only its entries are re-assigned
+        if v[0] == "call" and v[1] == ("global", "len") and len(v[2]) == 1 and not v[3] and v[2][0][0] == "binop" and v[2][0][1] == "Mult":
+            # len([c] * n) is n (n_eqns >= 1): the length of the RHS table read where the table is a helper's parameter
+            a, b = v[2][0][2], v[2][0][3]
+            if b[0] == "list":
+                a, b = b, a
+            if a[0] == "list" and len(a[1]) == 1 and a[1][0][0] != "star":
+                return self.is_n_eqns(b)
         if v[0] == "call" and v[1] == ("global", "max") and len(v[2]) == 2 and not v[3]:
             a, b = v[2]
             if a == ("const", 1):
@@ -241,7 +426,45 @@ class OdeModel:
                 for r, n in ((a[2], a[3]), (a[3], a[2])):
                     if self.is_n_eqns(n):
                         return r, b
+        # a longer sum (`rowstart + col + 1`, `col + n * row`): the one term carrying the factor n_eqns is the row part, the rest the column
+        terms = []
+
+        def flat(x):
+            if x[0] == "binop" and x[1] == "Add":
+                flat(x[2]); flat(x[3])
+            else:
+                terms.append(x)
+        flat(idx)
+        rows = [(i, r) for i, t in enumerate(terms) if t[0] == "binop" and t[1] == "Mult" for r, n in ((t[2], t[3]), (t[3], t[2])) if self.is_n_eqns(n)]
+        if len(rows) == 1 and len(terms) >= 2:
+            i, r = rows[0]
+            rest = [t for j, t in enumerate(terms) if j != i]
+            col = rest[0]
+            for t in rest[1:]:
+                col = ("binop", "Add", col, t)
+            return r, col
         return None
+
+    def _known_arith(self, v) -> bool:
+        """v is built by + - * and integer constants from species.index(..), n_spec and n_eqns only"""
+        v = simp(v)
+        if self.species_index(v) is not None or self.is_n_spec(v) or self.is_n_eqns(v):
+            return True
+        if v[0] == "const":
+            return isinstance(v[1], int) and not isinstance(v[1], bool)
+        if v[0] == "elem" and v[1][0] == "call" and v[1][1] == ("global", "range") and not v[1][3] and all(self._known_arith(a) for a in v[1][2]):
+            return True         # the counter of a loop over a range of understood bounds
+        if v[0] == "binop" and v[1] in ("Add", "Sub", "Mult", "FloorDiv", "Mod"):
+            return self._known_arith(v[2]) and self._known_arith(v[3])
+        if v[0] == "unop" and v[1] in ("USub", "UAdd"):
+            return self._known_arith(v[2])
+        # an element of set(..) / sorted(..) / dict.fromkeys(..) of a list of species positions: the positions are understood, the
+        # domain they are drawn from is not the list itself (occurrences merged / reordered)
+        if v[0] == "elem" and v[1][0] == "call" and v[1][1] in (("global", "set"), ("global", "frozenset"), ("global", "sorted"), ("global", "reversed"),
+                                                                 ("attr", ("global", "dict"), "fromkeys")) and len(v[1][2]) >= 1:
+            inner = simp(("elem", v[1][2][0], v[2]))
+            return self.species_index(inner) is not None
+        return False
 
     def species_index(self, v):
         """SPEC.index(x) -> x, else None."""
@@ -284,7 +507,9 @@ class OdeModel:
         else:
             d = self.decode_flat(idx)
             if d is None:
-                s.problems.append(("viol", "flat-index", f"index is not row*n_eqns + col: {show(idx)}"))
+                # wrong only when it is arithmetic over understood positions that does not have the row-major form (`col*n + row` is
+                # decoded and caught by the row / column rules); a slice, a tuple key, an index computed elsewhere is not understood
+                s.problems.append(("viol" if self._known_arith(idx) else "unrec", "flat-index", f"index is not row*n_eqns + col: {show(idx)[:200]}"))
                 return s
             row, col = d
         # --- row
@@ -297,7 +522,9 @@ class OdeModel:
             s.row = ("tgas",)
         else:
             # an index read from a list built elsewhere is not understood, which is not the same as wrong
-            s.problems.append(("unrec" if contains(row, _opaque) else "viol", "row", f"row index is neither species.index(..) nor n_spec: {show(row)}"))
+            # wrong only when it is arithmetic over positions that ARE understood (`species.index(r) + 1`, `n_spec - 1`); an index read
+            # from a list / record / call built elsewhere is not understood, which is not the same as wrong
+            s.problems.append(("viol" if self._known_arith(row) else "unrec", "row", f"row index is neither species.index(..) nor n_spec: {show(row)[:160]}"))
         if col is not None:
             cx = self.species_index(col)
             if cx is not None:
@@ -305,7 +532,7 @@ class OdeModel:
             elif col[0] == "elem" and col[1][0] == "call" and col[1][1] == ("global", "range"):
                 s.col = ("range", col[1][2], col[2])
             else:
-                s.problems.append(("unrec" if contains(col, _opaque) else "viol", "col", f"column index is not species.index(..): {show(col)}"))
+                s.problems.append(("viol" if self._known_arith(col) else "unrec", "col", f"column index is not species.index(..): {show(col)[:160]}"))
         # --- kind by enclosing loop
         kind = None
         if outer is not None:
@@ -325,7 +552,10 @@ class OdeModel:
         if kind is None:
             # a loop that does walk the reactions / thermal processes, but in a form that is not understood, is "cannot analyse"
             lists = (self.REAC_FIELD, self.REAC, self.HEAT, self.COOL)
-            if outer is not None and any(x in lists for lp_ in f.loops for x in walk(simp(lp_.iter))):
+            foreign = outer is not None and any(isinstance(x, tuple) and x and ((x[0] == "meth" and x[1] in (("param", "self"), ("param", "cls"))) or x[0] in ("unknown", "carried", "after", "acc"))
+                                                for lp_ in f.loops for x in walk(simp(lp_.iter)))
+            if outer is not None and (foreign or any(x in lists for lp_ in f.loops for x in walk(simp(lp_.iter)))):
+                # (also: a loop over what a helper method returns / over a list built elsewhere -- the entities it walks are not known)
                 s.problems.append(("unrec", "loop-shape", f"store into {f.target} inside a loop over {show(simp(outer.iter))[:80]}: loop form not understood"))
             else:
                 s.problems.append(("viol", "unexpected-writer", f"store into {f.target} outside the reaction/thermal/modifier loops"))
